@@ -33,3 +33,14 @@ CHECKS["C08"] = dict(
         "golden corpus golden/c08.jsonl was captured with the encoder sources of the pinned commit (fix commits do not touch the layout)",
     ],
 )
+
+CHECKS["C02"] = dict(
+    pkg="codec", run="^TestC02_", level="exploration", crash_is_violation=True,
+    quick=dict(shards=8, checks=60, timeout=900),
+    thorough=dict(shards=16, checks=600, timeout=3000),
+    assumptions=[
+        "size bound asserted only when no error is returned (DecodeFloat64 returns n=-1 with an error)",
+        "List.Get(i)/GetBytes(i) with i outside [0,Len) panic by documentation and are not called",
+        "struct decoders emitted by the generator are exercised by the lang engine's kitchen-sink sub-run when available",
+    ],
+)
